@@ -31,18 +31,27 @@ def _alarm(signum, frame):
 
 
 class Counter:
+    """the shared work budget; `tag` = which pipeline of the scenario pulls (1, or 2 for the second pipeline of a
+    'pair'); `ended[tag]()` tells whether that pipeline's subscriber is already done with it"""
+
     def __init__(self, budget: int):
         self.n = 0
         self.budget = budget
-        self.after_return = 0
-        self.closed = False
+        self.tag = 1          # set by build() while it constructs a pipeline: sources capture it
+        self.phase2 = False   # the caller has abandoned pipeline 1 and begun the second subscribe()
+        self.stale = 0
+        self.late = 0
+        self.ended = {}
 
-    def pull(self) -> int:
-        if self.closed:
-            self.after_return += 1
+    def pull(self, tag: int = 1) -> int:
         if self.n >= self.budget:
             raise BudgetExhausted()
         self.n += 1
+        if tag == 1 and self.phase2:
+            self.stale += 1
+        f = self.ended.get(tag)
+        if f is not None and f():
+            self.late += 1
         return self.n
 
 
@@ -57,13 +66,13 @@ class CountingIter:
     """infinite iterator; every pull is counted against the budget"""
 
     def __init__(self, counter: Counter, profile: str):
-        self.c, self.profile = counter, profile
+        self.c, self.profile, self.tag = counter, profile, counter.tag
 
     def __iter__(self):
         return self
 
     def __next__(self):
-        return _val(self.profile, self.c.pull())
+        return _val(self.profile, self.c.pull(self.tag))
 
 
 # ---- forms: the API spellings of one model node kind -------------------------------------------
@@ -115,21 +124,24 @@ class _Patches:
         class CountingRange:
             def __init__(self, *a):
                 self.r = range(*a)
+                self.tag = c.tag
 
             def __iter__(self):
                 hit["range"] = True
                 it = iter(self.r)
+                tag = self.tag
 
                 def g():
                     while True:
-                        c.pull()
+                        c.pull(tag)
                         yield next(it)
                 return g()
 
         def counting_infinite():
             hit["infinite"] = True
+            tag = c.tag
             while True:
-                c.pull()
+                c.pull(tag)
                 yield True
 
         for modname, attr, val in (("reactivex.observable.range", "range", CountingRange),
@@ -188,8 +200,8 @@ def applicable(scn: Dict[str, Any], form: Dict[str, str]) -> bool:
     return True
 
 
-def build(scn: Dict[str, Any], form: Dict[str, str], counter: Counter, profile: str, src_sched=None):
-    """the real pipeline for the exported node table (recursive descent over scn['nd'])"""
+def build(scn: Dict[str, Any], form: Dict[str, str], counter: Counter, profile: str, src_sched=None, root: int = 1):
+    """the real pipeline for the exported node table (recursive descent over scn['nd'] from node `root`)"""
     import reactivex as rx
     from reactivex import operators as ops
     nd = scn["nd"]
@@ -210,8 +222,10 @@ def build(scn: Dict[str, Any], form: Dict[str, str], counter: Counter, profile: 
             if form["resched"] == "range":
                 return rx.range(0, sys.maxsize, scheduler=src_sched) if src_sched is not None else rx.range(0, sys.maxsize)
 
+            tag = counter.tag
+
             def cond(_s):
-                counter.pull()
+                counter.pull(tag)
                 return True
             return rx.generate(0, cond, lambda s_: _val(profile, 0) if profile == "falsy" else s_ + 1)
         if k == "one":
@@ -299,9 +313,11 @@ def build(scn: Dict[str, Any], form: Dict[str, str], counter: Counter, profile: 
                 if form["repeat"] == "ops.repeat":
                     return x.pipe(ops.repeat())
 
+                tag = counter.tag
+
                 def gen():
                     while True:
-                        counter.pull()
+                        counter.pull(tag)
                         yield x
                 return rx.defer(lambda _s: rx.concat_with_iterable(gen()))
             inner = mk(n["a"])
@@ -309,9 +325,11 @@ def build(scn: Dict[str, Any], form: Dict[str, str], counter: Counter, profile: 
         if k == "concatinf":
             x = mk(n["a"])
 
+            tag2 = counter.tag
+
             def gen2():
                 while True:
-                    counter.pull()
+                    counter.pull(tag2)
                     yield x
             return rx.concat_with_iterable(gen2())
         if k == "share":
@@ -355,7 +373,7 @@ def build(scn: Dict[str, Any], form: Dict[str, str], counter: Counter, profile: 
             return a.pipe(ops.skip_until(b))
         raise ValueError(k)
 
-    return mk(1)
+    return mk(root)
 
 
 def perform(scn: Dict[str, Any], form: Dict[str, str], profile: str = "plain", watchdog: float = 5.0,
